@@ -285,25 +285,33 @@ macro_rules! c01_g {
 }
 const PL_A: [Point; 3] = [Point::new(0, 0), Point::new(4, 2), Point::new(1, 5)];
 const PL_B: [Point; 1] = [Point::new(2, 2)];
-fn tri_a() -> Triangle { Triangle::new(Point::new(0, 0), Point::new(5, 1), Point::new(2, 4)) }
+fn tri_a() -> Triangle { Triangle::new(Point::new(0, 0), Point::new(4, 1), Point::new(1, 3)) }
+fn tri_s() -> Triangle { Triangle::new(Point::new(0, 0), Point::new(3, 0), Point::new(1, 2)) }
 fn tri_b() -> Triangle { Triangle::new(Point::new(-3, 2), Point::new(1, -2), Point::new(3, 3)) }
-c01_g!(c01_c02_q_g_triangles_fill, 40, [
+c01_g!(c01_c02_q_g_triangles_fill, 24, [
     (tri_a(), |f, _s| style(0, StrokeAlignment::Center, Some(f), None)),
-    (tri_b(), |f, s| style(0, StrokeAlignment::Center, Some(f), Some(s))),
 ]);
-c01_g!(c01_c02_q_g_triangles_stroke1, 40, [
-    (tri_a(), |f, s| style(1, StrokeAlignment::Center, Some(f), Some(s))),
-    (tri_b(), |_f, s| style(1, StrokeAlignment::Center, None, Some(s))),
+// stroked triangles go through the thick-stroke join machinery even for width 1: tiny triangle in the
+// quick tier, larger ones thorough
+c01_g!(c01_c02_q_g_triangle_stroke1, 16, [
+    (tri_s(), |f, s| style(1, StrokeAlignment::Center, Some(f), Some(s))),
 ]);
 // fill colour set, stroke width > 0 but NO stroke colour
-c01_g!(c01_c02_q_g_triangles_fill_nostroke_w1, 40, [
-    (tri_a(), |f, _s| style(1, StrokeAlignment::Inside, Some(f), None)),
+c01_g!(c01_c02_q_g_triangle_fill_nostroke_w1, 16, [
+    (tri_s(), |f, _s| style(1, StrokeAlignment::Inside, Some(f), None)),
+]);
+#[cfg(feature = "thorough")]
+c01_g!(c01_c02_t_g_triangles_stroke1, 40, [
+    (tri_a(), |f, s| style(1, StrokeAlignment::Center, Some(f), Some(s))),
+    (tri_b(), |_f, s| style(1, StrokeAlignment::Center, None, Some(s))),
+    (tri_b(), |f, s| style(0, StrokeAlignment::Center, Some(f), Some(s))),
 ]);
 c01_g!(c01_c02_q_g_polyline_thin, 40, [
     (Polyline::new(&PL_A), |_f, s| PrimitiveStyle::with_stroke(s, 1)),
     (Polyline::new(&PL_B), |_f, s| PrimitiveStyle::with_stroke(s, 1)),
 ]);
-c01_g!(c01_c02_q_g_arc_sector, 60, [
+#[cfg(feature = "thorough")]
+c01_g!(c01_c02_t_g_arc_sector, 60, [
     (Sector::new(Point::new(0, 0), 6, Angle::from_degrees(0.0), Angle::from_degrees(90.0)), |f, s| style(1, StrokeAlignment::Inside, Some(f), Some(s))),
     (Arc::new(Point::new(-2, -1), 5, Angle::from_degrees(45.0), Angle::from_degrees(180.0)), |_f, s| PrimitiveStyle::with_stroke(s, 1)),
 ]);
